@@ -28,6 +28,7 @@ import (
 const (
 	denom       = "stake"
 	verifModule = "verifmod"  // test double: a module that owns request contexts
+	halfModule  = "halfmod"   // test double: a module that registered only a response callback
 	modSvcOwner = "verifsvc"  // test double: a module that reserves a service name
 	modSvcName  = "modsvc"    // name of the module-reserved service
 	startHeight = int64(10)
@@ -45,6 +46,9 @@ type CallbackRec struct {
 	// what the callback saw in the store at that instant
 	SeenCounter uint64 `json:"seen_counter"`
 	SeenFound   bool   `json:"seen_found"`
+	// what the module double did in reaction, from inside the callback
+	React   string `json:"react,omitempty"`
+	ReactOK bool   `json:"react_ok,omitempty"`
 }
 
 // ModSvcBehaviour selects how the module service double answers.
@@ -93,10 +97,16 @@ func NewApp() *App {
 			return
 		}
 		rc, found := a.cur.rawContext(ctx, id)
-		a.cur.cbLog = append(a.cur.cbLog, CallbackRec{
-			Kind: "state", CtxID: hexs(id), Cause: cause, SeenCounter: rc.BatchCounter, SeenFound: found,
-		})
+		rec := CallbackRec{Kind: "state", CtxID: hexs(id), Cause: cause, SeenCounter: rc.BatchCounter, SeenFound: found}
+		if a.cur.stateCbKill && found {
+			// a module may react to the pause by giving the context up
+			rec.React = "kill"
+			rec.ReactOK = a.k.KillRequestContext(ctx, id, rc.Consumer) == nil
+		}
+		a.cur.cbLog = append(a.cur.cbLog, rec)
 	}))
+	// a second module that registered a response callback only: contexts cannot be created for it
+	must(a.k.RegisterResponseCallback(halfModule, func(ctx sdk.Context, id tmbytes.HexBytes, outputs []string, err error) {}))
 	must(a.k.RegisterModuleService(modSvcOwner, &types.ModuleService{
 		ServiceName: modSvcName,
 		Provider:    a.modSvcProvider,
@@ -134,6 +144,7 @@ type World struct {
 	cbLog   []CallbackRec
 	modSvcBehaviour ModSvcBehaviour
 	hasModSvc bool
+	stateCbKill bool // the verifmod double kills a context from inside its state callback
 
 	tracked    map[string]string // addr hex -> name, accounts whose balance is observed
 	trackedOrd []string
@@ -378,6 +389,44 @@ func (w *World) EndBlock(dt time.Duration) (res StepResult) {
 	w.cbLog = nil
 	w.height++
 	w.now = w.now.Add(dt)
+	return
+}
+
+// Restart does what a zero-height restart of the chain does to this module: prepare for
+// the zero-height export, export the genesis, wipe the module's store and initialise it
+// again from that genesis. Bank state (adjusted by the preparation's refunds) is kept,
+// as the bank module's own export/import would carry it over.
+func (w *World) Restart() (res StepResult) {
+	w.cbLog = nil
+	cctx, write := w.curCtx().CacheContext()
+	cctx = cctx.WithEventManager(sdk.NewEventManager())
+	func() {
+		defer func() {
+			if r := recover(); r != nil {
+				res.Panic = panicClass(r) + ": " + fmt.Sprint(r)
+				res.PanicSite = panicSite(string(debug.Stack()))
+			}
+		}()
+		service.PrepForZeroHeightGenesis(cctx, w.a.k)
+		gs := service.ExportGenesis(cctx, w.a.k)
+		store := cctx.KVStore(w.a.app.GetKey(types.StoreKey))
+		var keys [][]byte
+		it := store.Iterator(nil, nil)
+		for ; it.Valid(); it.Next() {
+			keys = append(keys, append([]byte(nil), it.Key()...))
+		}
+		it.Close()
+		for _, k := range keys {
+			store.Delete(k)
+		}
+		service.InitGenesis(cctx, w.a.k, *gs)
+		res.OK = true
+	}()
+	if res.OK {
+		write()
+	}
+	res.Callbacks = w.cbLog
+	w.cbLog = nil
 	return
 }
 
